@@ -37,7 +37,7 @@ func vC02BlockReader(N int, smallLimit bool) {
 	// which a length prefix announcing up to 8 MiB is followed by a stream that ends early
 	opts := []Option{ZeroLengthSectionAsEOF(zl)}
 	if smallLimit {
-		opts = append(opts, MaxAllowedSectionSize(uint64(N)))
+		opts = append(opts, MaxAllowedSectionSize(uint64(N-1))) // a section exactly at the limit fits into the input
 	}
 	br, err := NewBlockReader(src, opts...)
 	vAssert("header-accepted", err == nil && br.Version == 1 && len(br.Roots) == 1 && br.Roots[0].Equals(root))
